@@ -114,6 +114,17 @@ def meme_rules(repo):
     brk = [n for n in walk_no_nested(loop) if isinstance(n, ast.If) and any(isinstance(b, ast.Break) for b in n.body)]
     ok = len(brk) == 1 and unparse(brk[0].test) == "n_motifs is not None and len(motifs) == n_motifs" and brk[0].lineno > c.lineno
     out.append((holds if ok else (unrecognised if brk else holds))("MEME", fi, role, unparse(brk[0].test) if brk else "no early stop", brk[0] if brk else loop, nontrivial=False))
+    role = "parser states are entered on lines starting with MOTIF / letter-probability"
+    tests = [unparse(n.test) for n in walk_no_nested(loop) if isinstance(n, ast.If)]
+    if "line[:5] == 'MOTIF'" in tests and "line[:6] == 'letter'" in tests:
+        out.append(holds("MEME", fi, role, "line[:5] == 'MOTIF'; line[:6] == 'letter'", loop, nontrivial=False))
+    elif any(t in ("line[:5] != 'MOTIF'", "line[:6] != 'letter'") for t in tests):
+        out.append(violation("MEME", fi, role, "a state test is inverted: %s" % [t for t in tests if "line[" in t], loop))
+    elif any(t.startswith("line.startswith(") for t in tests):
+        ok = "line.startswith('MOTIF')" in tests and any(t.startswith("line.startswith('letter") for t in tests)
+        out.append((holds if ok else unrecognised)("MEME", fi, role, str([t for t in tests if "line" in t]), loop, nontrivial=False))
+    else:
+        out.append(unrecognised("MEME", fi, role, str([t for t in tests if "line" in t])))
     # name
     role = "motif name is the text after `MOTIF `"
     nm = [unparse(s.value) for s in walk_no_nested(loop) if isinstance(s, ast.Assign) and unparse(s.targets[0]) == "motif" and "line" in unparse(s.value)]
@@ -270,6 +281,22 @@ def loci_rules(repo):
             out.append(violation("EDGE", fi, role, "edge test is `%s`" % t, ef[0]))
         else:
             out.append(unrecognised("EDGE", fi, role, t, ef[0]))
+    # --- count filters and n_loci cap
+    role = "a locus is dropped by the count filters only when its target signal is below min_counts / above max_counts; loading stops at n_loci"
+    tests = {unparse(n.test): n for n in walk_no_nested(loop) if isinstance(n, ast.If)}
+    want = ["min_counts is not None and signal[target_idx].sum() < min_counts", "max_counts is not None and signal[target_idx].sum() > max_counts",
+            "n_loci is not None and len(seqs) == n_loci"]
+    if all(w in tests for w in want):
+        okb = any(isinstance(b, ast.Break) for b in tests[want[2]].body) and all(any(isinstance(b, ast.Continue) for b in tests[w].body) for w in want[:2])
+        out.append((holds if okb else violation)("FILTER", fi, role, "; ".join(want), tests[want[0]], nontrivial=False))
+    else:
+        near = [t for t in tests if "min_counts" in t or "max_counts" in t or "n_loci" in t]
+        if any("<= min_counts" in t or ">= max_counts" in t for t in near):
+            out.append(violation("FILTER", fi, role, "a locus whose signal equals the bound is dropped: %s" % near, tests[near[0]]))
+        elif any("> min_counts" in t or "< max_counts" in t for t in near):
+            out.append(violation("FILTER", fi, role, "count filter is inverted: %s" % near, tests[near[0]]))
+        else:
+            out.append(unrecognised("FILTER", fi, role, str(near)))
     # --- midpoint
     role = "the midpoint is start + (end - start)//2 of the locus"
     md = [s for s in loop.body if isinstance(s, ast.Assign) and unparse(s.targets[0]) == "mid"]
